@@ -821,6 +821,14 @@ def catalogue(tables):  # pylint: disable=too-many-locals,too-many-statements
 		i = rng.randrange(1, 19)
 		return Edit('', path, _replace(lines, i, [lines[i] + 'x']), 'CopyrightCommentChecker', 'invalid copyright comment', 1)
 
+	@family('licence header: line shifted by leading white space')
+	def _(rng, path, lines):
+		# the licence text is compared line by line, white space included: an indented licence line is not the licence
+		if lines[0] != '/**' or len(lines) < 25:
+			return None
+		i = rng.randrange(1, 19)
+		return Edit('', path, _replace(lines, i, [rng.choice(['\t', ' ', '  ']) + lines[i]]), 'CopyrightCommentChecker', 'invalid copyright comment', 1)
+
 	@family('region pairing: deleted endregion')
 	def _(rng, path, lines):
 		i = pick(rng, _indices(lines, lambda l: l.strip() == '// endregion'))
